@@ -52,7 +52,8 @@ func OsFsImport() afero.Fs {
 // is counted, so that a monitor can cancel a component while it is still reading its input
 // and then count — logically, not by the clock — how much it went on reading. Opening a path
 // under /failopen/ for reading fails after FailOpenDelay (a source that cannot be opened,
-// found out late); a file under /failread/<n>/ delivers n bytes and then fails every Read.
+// found out late); a file under /failread/<n>/ delivers n bytes and then fails every Read; a
+// file under /failwrite/<n>/ accepts n bytes and then fails every Write.
 type slowFs struct{ afero.Fs }
 
 var (
@@ -110,9 +111,47 @@ func (s *slowFs) Open(name string) (afero.File, error) {
 func (s *slowFs) OpenFile(name string, flag int, perm os.FileMode) (afero.File, error) {
 	f, err := s.Fs.OpenFile(name, flag, perm)
 	if flag&(os.O_WRONLY|os.O_RDWR) != 0 {
-		return f, err
+		return faultyWrite(name, f, err)
 	}
 	return faulty(name, f, err)
+}
+
+func (s *slowFs) Create(name string) (afero.File, error) {
+	f, err := s.Fs.Create(name)
+	return faultyWrite(name, f, err)
+}
+
+// ErrInjectedWrite: a file under /failwrite/<n>/ accepts n bytes and then fails every Write
+// (a full disk).
+var ErrInjectedWrite = errors.New("injected fault: no space left on device")
+
+type failWriteFile struct {
+	afero.File
+	mu   sync.Mutex
+	left int
+}
+
+func (f *failWriteFile) Write(p []byte) (int, error) {
+	f.mu.Lock()
+	defer f.mu.Unlock()
+	if len(p) > f.left {
+		n, _ := f.File.Write(p[:f.left])
+		f.left -= n
+		return n, ErrInjectedWrite
+	}
+	n, err := f.File.Write(p)
+	f.left -= n
+	return n, err
+}
+
+func (f *failWriteFile) WriteString(s string) (int, error) { return f.Write([]byte(s)) }
+
+func faultyWrite(name string, f afero.File, err error) (afero.File, error) {
+	if err == nil && strings.HasPrefix(name, "/failwrite/") {
+		n, _ := strconv.Atoi(strings.SplitN(strings.TrimPrefix(name, "/failwrite/"), "/", 2)[0])
+		return &failWriteFile{File: f, left: n}, nil
+	}
+	return f, err
 }
 
 type slowFile struct{ afero.File }
